@@ -12,3 +12,15 @@ oracle = AR.filtered_oracle(['irreproducible', 'int-vs-sha256', 'randomstate-rep
 
 def cases(tier, rng, dist):
     return AR.cases(tier, rng, dist, extra=('exp', 'pifs'))
+
+
+def generated(tier):
+    """G1: every use of numpy's global generator in /repo/permute/*.py"""
+    from ..translate.effects import scan
+    from ..common import cstr
+    sites, _ = scan()
+    items = sorted({(m, f) for (m, f, ln, w) in sites})
+    text = ("From Coq Require Import String List Bool.\nImport ListNotations.\nFrom PV Require Import Lib.EffectSites.\n"
+            "Definition sites : list (string * string) := [" + "; ".join(f"({cstr(m)}, {cstr(f)})" for (m, f) in items) + "].\n"
+            "Theorem global_rng_only_in_get_prng : forallb rng_site_ok sites = true.\nProof. vm_compute. reflexivity. Qed.\n")
+    return [{"name": "G1_global_rng_only_in_get_prng", "file": "C06_G1_sites.v", "text": text, "detail": [list(x) for x in sites], "cls": "source:global-rng"}]
